@@ -202,9 +202,10 @@ Definition spec_ok (g : graph) (r : run) : bool :=
                               end
                             end) (r_refs r)) all_cls.
 
-(* ---- deviations from the Spec that the recorded defects do not explain.
-   The model mirrors the code with its recorded defects; wherever the model itself differs from the
-   Spec, a difference between the implementation and the Spec is the known deviation.  Wherever
+(* ---- deviations from the Spec that the model does not explain.
+   For the tables of a module the model equals the Spec on every legal program (C06_full); the
+   model's view of nested scopes (leaks into shared dictionaries, host association) is coarser
+   than the Spec there, and a difference the model shares with the code is a recorded one.  Wherever
    the model AGREES with the Spec (a name it resolves as Fortran does, or leaves out as Fortran
    does), the implementation must agree too: otherwise the input is a failing input whatever
    region it lies in. *)
@@ -289,10 +290,6 @@ Definition spec_ok_x (g : graph) (r : run) : bool :=
                               end
                             end) (r_refs r)) all_cls.
 
-Definition region_bits (g : graph) : nat :=
-  (if region_rename g then 1 else 0) + (if region_private g then 2 else 0)
-  + (if region_only_empty g then 4 else 0) + (if region_only_dup g then 8 else 0).
-
 (* acyclic = the toposort model succeeds; the Spec is only asked about legal programs (region
    value 32 marks the programs that are not: ambiguous identifiers, cycles, self use).
    bit 1: the implementation differs from the Spec where the model agrees with the Spec;
@@ -301,7 +298,7 @@ Definition judge_run (g0 : graph) (r : run) : nat :=
   let g := reorder (map lower_module g0) (map lower (r_files r)) in
   let legal := wf_graph g && match toposort g with Some _ => true | None => false end in
   verdict (negb (model_ok g r)) (legal && negb (spec_ok_x g r))
-          (region_bits g + (if legal then 0 else 32) + (if legal && negb (spec_ok g r) then 64 else 0)).
+          ((if legal then 0 else 32) + (if legal && negb (spec_ok g r) then 64 else 0)).
 Definition judge (c : case) : nat := fold_left Nat.lor (map (judge_run (fst c)) (snd c)) 0.
 
 (* short constructors for runs *)
